@@ -3,18 +3,19 @@
    the ontology-level properties.  The harness builds the same world with the
    real crate and prints the same observation. *)
 From HpoV Require Import Gen.Consts Model.Base Model.Group Model.Onto Model.F32 Model.IC
-  Model.Query Model.Dump Model.Script Model.Binary.
+  Model.Query Model.Dump Model.Script Model.Binary Model.SubOnt.
 
 Inductive world :=
 | WBuilder (s : script)
-| WBytes (b : list N).
+| WBytes (b : list N)
+| WSub (w : world) (root : N) (leaves : list N).
 
 (* the f32::ln oracle table travels with the case *)
 Definition winput : Type := world * list (N * N).
 
 Definition wobs : Type := res (list N * res donto).
 
-Definition build_world (tbl : list (N * N)) (w : world) : res (list N * res onto) :=
+Fixpoint build_world (tbl : list (N * N)) (w : world) : res (list N * res onto) :=
   match w with
   | WBuilder s => run_script (ic32 (table_oracle tbl)) s
   | WBytes b =>
@@ -22,6 +23,24 @@ Definition build_world (tbl : list (N * N)) (w : world) : res (list N * res onto
       | Panic => Panic
       | Fuel => Fuel
       | r => Ok ([], r)
+      end
+  | WSub w' root leaves =>
+      do r <- build_world tbl w' ;;
+      match snd r with
+      | Ok o =>
+          (* the harness takes root and leaves from the source ontology: ont.hpo(id).unwrap() *)
+          match o_get root o with
+          | None => Panic
+          | Some rt =>
+              if forallb (fun l => match o_get l o with Some _ => true | None => false end) leaves then
+                match sub_ontology (ic32 (table_oracle tbl)) o rt leaves with
+                | Panic => Panic
+                | Fuel => Fuel
+                | r' => Ok ([], r')
+                end
+              else Panic
+          end
+      | _ => Ok ([], snd r)
       end
   end.
 
